@@ -3,6 +3,8 @@
 GW_EVENTS = ["message_approved", "message_executed", "signers_rotated", "contract_called",
              "ownership_transferred", "operatorship_transferred"]
 
+GW_TRACE = {"kind": "trace", "spec": "TraceGateway", "module": "Gateway", "quick": (8, 250), "thorough": (64, 600)}
+
 GOOD_PROOF = {"set": "s1", "sigs": ["Valid", "Valid"]}
 
 
@@ -76,6 +78,7 @@ PROPS = {
         "jobs": [
             {"kind": "graph", "spec": "MC_C02", "module": "Gateway", "evkinds": GW_EVENTS,
              "need": ["ApproveMessages/ok", "ValidateMessage/ok"]},
+            GW_TRACE,
         ],
         "level_text": "TLC proves the status-monotonicity / exactly-once invariants on every reachable state of a finite instance (all interleavings, no depth bound) and every one of its transitions is executed against the real gateway with the specification's post-state as oracle.",
         "rule": "cases = transitions (pre-state, action) of the bounded TLC instance replayed against the contracts; "
@@ -96,6 +99,7 @@ PROPS = {
              "need": ["RotateSigners/ok", "RotateSigners/wellformed", "RotateSigners/duplicate",
                       "RotateSigners/latest_or_bypass", "Construct/ok", "Construct/wellformed", "Construct/duplicate"],
              "control": sibling_control(["proof", "bypass", "auth"], "new")},
+            GW_TRACE,
         ],
         "level_text": "TLC proves epoch +1 / inverse lookups / well-formed-and-fresh / frame on every reachable state of the bounded instance; every transition (13 candidate shapes x proof kinds x bypass x operator auth over all histories of <= 4 rotations, and 20 constructor lists) is executed against the real gateway and epoch(), signers_hash_by_epoch(0..epoch+1), epoch_by_signers_hash(every catalogue hash) are compared.",
         "rule": "cases = transitions of the bounded TLC instance replayed against the contracts; distinct = distinct (abstract pre-state, action) pairs; each is a rotation or construction attempt",
@@ -110,7 +114,7 @@ PROPS = {
              "need": ["ApproveMessages/ok", "RotateSigners/ok", "ValidateProof/ok"] + ([] if r == "9" else ["ApproveMessages/retention", "RotateSigners/retention"]),
              "control": latest_proof_control}
             for r in ["0", "1", "2", "9"]
-        ],
+        ] + [GW_TRACE],
         "level_text": "TLC proves honoured <=> epoch distance <= retention for approvals, proof checks and bypass rotations and 'plain rotation only by the newest set' on every reachable state; the instance keeps the route (1..3 initial sets, plain/bypass per epoch) in its state, so a proof from every installed epoch is replayed against the real gateway after every history of <= 6 epochs, for retention 0, 1, 2 and 9.",
         "rule": "cases = transitions of the bounded TLC instances (one per retention setting) replayed against the contracts; distinct = distinct (route, action) pairs, each a proof from one installed epoch through one entry point",
         "assumptions": ["soroban-env-host test mode implements on-chain semantics", "bounds: <= 6 epochs, retention in {0,1,2,9}, 1..3 initial sets"],
@@ -123,7 +127,7 @@ PROPS = {
              "need": ["RotateSigners/ok", "RotateSigners/operator_auth", "Tick/ok"] + ([] if d == "d0" else ["RotateSigners/delay"]),
              "control": wait_longer_control}
             for d in ["d0", "d1", "d10", "d10big"]
-        ],
+        ] + [GW_TRACE],
         "level_text": "TLC proves the delay limit, its completeness at the boundary, the clock rule (restart on every success incl. bypass, untouched on failure) and operator-only bypass on every reachable state; every transition (time steps of 1, D-1, D, D+1 interleaved with plain/bypass rotations that succeed or fail) is replayed against the real gateway with the ledger timestamp set by the harness.  The rotation clock is not observable; it is decided by the accept/reject outcome of every later rotation in the graph.",
         "rule": "cases = transitions of the bounded TLC instances (one per minimum delay) replayed against the contracts; distinct = distinct (abstract pre-state incl. now and last rotation time, action) pairs",
         "assumptions": ["soroban-env-host test mode implements on-chain semantics", "bounds: <= 4 epochs, delay in {0,1,10,10*2^40 s}, time horizon 2*delay+3"],
@@ -137,7 +141,7 @@ PROPS = {
                       "ValidateProof/ok", "ValidateProof/signatures", "ValidateProof/retention"],
              "control": all_valid_control}
             for c in ["max", "unit"]
-        ],
+        ] + [GW_TRACE],
         "level_text": "TLC proves soundness (accepted => retained set and valid weight >= threshold), completeness (honest sufficient subset => accepted) and the frame rule on every reachable state; every transition - all 8^n signature-tag vectors for every installed set, nine single tamperings of the declared set, claimed sets latest/retained/expired/unknown - is executed against the real gateway with signatures and digests built by the harness's own recipe (sha3 Keccak, ed25519-dalek), on the u128 lattice (threshold = total = u128::MAX) and in unit weights.",
         "rule": "cases = transitions of the two bounded TLC instances replayed against the contracts; distinct = distinct (pre-state, entry point, declared set, tag vector) tuples",
         "assumptions": ["soroban-env-host test mode implements on-chain semantics incl. Ed25519 and Keccak", "the signing digest layout keccak(domain || keccak(xdr(signers)) || keccak(xdr((command, data)))) is part of the external protocol and pinned by the harness",
@@ -145,11 +149,12 @@ PROPS = {
     },
     "C13": {
         "title": "Outbound calls are announced exactly, and only under the sender's authority",
-        "policy": {"guards": ["named_auth"], "fields": ["*"], "events": ["contract_called"], "rets": []},
+        "policy": {"guards": ["named_auth"], "fields": [], "act_fields": {"CallContract": ["*"]}, "events": ["contract_called"], "rets": []},
         "jobs": [
             {"kind": "graph", "spec": "MC_C13", "module": "Gateway", "evkinds": GW_EVENTS,
              "need": ["CallContract/ok", "CallContract/named_auth"],
              "control": sibling_control(["caller", "via", "through", "auth"], "payload")},
+            GW_TRACE,
         ],
         "level_text": "TLC proves 'exactly one announcement with these fields, no state change, only under the sender's authority' for every action of the instance; every one (3 kinds of sender x authorisers x 12 destination string pairs x 7 payload sizes up to 20 KiB) is executed against the real gateway. Bit-exactness of the published hash is decided by the binding's independent Keccak-256 (sha3 crate), not by TLC.",
         "rule": "cases = call_contract transitions replayed against the contract; distinct = distinct (sender kind, authorisers, chain, address, payload) tuples",
